@@ -86,7 +86,11 @@ func (i *ItemIter) Next() bool {
 		return false
 	}
 	// TODO: set context based on a deadline?
-	i.iter = FetchItems(i.ctx, i.current, i.session).iter
+	page := FetchItems(i.ctx, i.current, i.session)
+	i.iter, i.err = page.iter, page.err
+	if i.err != nil {
+		return false
+	}
 	return i.Next()
 }
 
